@@ -214,6 +214,14 @@ def corpus(kind, spec, canary, dtd_path, port, rng):
                          'doc': multiref('', vals).replace('<tns:it href="#top"/>', '<tns:it><tns:a>7</tns:a><tns:b>x</tns:b><tns:k href="#m0"/></tns:it>')})
         docs.append({'template': 'multiref-plain', 'method': 'echo_item', 'pos': 'elem', 'bomb': False, 'multiref': True, 'control': True,
                      'forbidden_text': [], 'doc': multiref('', '<tns:Item id="top"><tns:a>7</tns:a><tns:b>x</tns:b></tns:Item>')})
+    # attribute floods on the element of a class that declares attributes (user code reads them, so the reader walks them): the cost of reading
+    # must grow with the request, not with its square - the same flood at n and at 4n attributes
+    for n in ((20000, 80000) if tier == 'quick' else (20000, 80000, 160000)):
+        attrs = ' '.join('a%d="v"' % i for i in range(n))
+        body = [b for m, b in valid_requests(kind) if m == 'echo_item'][0].replace('@@T0@@', 'x')
+        b3 = re.sub(r'<tns:it>', lambda m: '<tns:it tag="t" %s>' % attrs, body, count=1)
+        docs.append({'template': 'attr-flood-declared-%d' % n, 'method': 'echo_item', 'pos': 'attr-declared', 'doc': b3, 'bomb': False, 'forbidden_text': [],
+                     'scaling': ('attr-flood-declared', n)})
     # benign controls: the monitors must see a normal call
     for meth, body in valid_requests(kind):
         docs.append({'template': 'control-valid', 'method': meth, 'pos': 'text', 'doc': body.replace('@@T0@@', '5'), 'bomb': False,
@@ -487,6 +495,7 @@ def run(spec, R):
     if accepted:
         R.violation('network canary accepted %d connections' % accepted, {'spec': spec}, mech='network_connect')
     twins = {}
+    scaling = {}
     for d in docs:
         r = results.get(d['i'])
         if r is None:
@@ -552,6 +561,8 @@ def run(spec, R):
                     if entered:
                         R.violation('user function ran for a bomb document (%s)' % d['template'], case, mech='bomb_reached_user_code')
                     R.violation('bomb document not answered with a client fault: %r' % (fault,), case, mech='bomb_not_client_fault')
+        if d.get('scaling'):
+            scaling.setdefault(d['scaling'][0], {})[d['scaling'][1]] = (r.get('cpu_s', 0), case, fault)
         if d.get('twin'):
             twins.setdefault(d['twin'], {})[d['twin_role']] = ('refused' if fault is not None else 'served' if entered else 'other', case)
         if d.get('control'):
@@ -567,6 +578,15 @@ def run(spec, R):
         if len(R.samples) < 4 and d['template'].startswith(('ext-general-file', 'bomb-chain', 'internal')):
             R.sample({'case': {k: case[k] for k in ('kind', 'driver', 'template', 'pos')}, 'doc': case['doc'][:400], 'outcome': outcome,
                       'syscalls_in_segment': len(seg), 'cpu_s': r.get('cpu_s')})
+    for key, pts in sorted(scaling.items()):
+        ns_ = sorted(pts)
+        for a_, b_ in zip(ns_, ns_[1:]):
+            (ca, _, fa), (cb, case_b, fb) = pts[a_], pts[b_]
+            R.count('scaling_pairs_compared')
+            # four times the input may cost four times the time, with slack for noise; sixteen times is the square
+            if fa is None and fb is None and cb > 2.0 and cb > 9 * max(ca, 0.05) * (b_ / a_) / 4:
+                R.violation('%s: %d attributes took %.2f s of CPU, %d took %.2f s - the cost grows faster than the request' % (key, a_, ca, b_, cb), case_b,
+                            mech='cost_superlinear:%s' % key)
     for key, roles in sorted(twins.items()):
         base = roles.get('plain')
         for role, (verdict, case) in sorted(roles.items()):
